@@ -120,7 +120,18 @@ func runFuncAttach(e *env) error {
 		if m.Constructor != nil {
 			ctor = m.Constructor.Package + ":" + m.Constructor.Name
 		}
-		impl = append(impl, strings.Join(fns, "; ")+" | ctor "+ctor)
+		// the field table (source and ignore per target field) and the raw field lines IN SOURCE ORDER: a later line for the
+		// same field overrides an earlier one, whatever kind of line it is
+		var fnames []string
+		for name := range m.Fields {
+			fnames = append(fnames, name)
+		}
+		sort.Strings(fnames)
+		var fl []string
+		for _, name := range fnames {
+			fl = append(fl, fmt.Sprintf("%s=%s/%v", name, m.Fields[name].Source, m.Fields[name].Ignore))
+		}
+		impl = append(impl, strings.Join(fns, "; ")+" | ctor "+ctor+" | fields "+strings.Join(fl, ",")+" | raw "+strings.Join(m.RawFieldSettings, ";"))
 		sc := &settingsCase{Conv: []string{"converter", "ignoreMissing"}, Meth: en.lines, LoaderOK: true}
 		reqs = append(reqs, settingsReq(i, sc))
 	}
@@ -156,7 +167,21 @@ func runFuncAttach(e *env) error {
 				}
 			}
 			sort.Strings(fns)
-			model = strings.Join(fns, "; ") + " | ctor " + ctor
+			var fl, raw []string
+			for _, part := range ans.L[2].Args() {
+				switch part.Head() {
+				case "Fields":
+					for _, f := range part.Args() {
+						fl = append(fl, fmt.Sprintf("%s=%s/%s", f.L[1].S, f.L[2].S, f.L[3].S))
+					}
+				case "RawFieldSettings":
+					for _, f := range part.Args() {
+						raw = append(raw, f.S)
+					}
+				}
+			}
+			sort.Strings(fl)
+			model = strings.Join(fns, "; ") + " | ctor " + ctor + " | fields " + strings.Join(fl, ",") + " | raw " + strings.Join(raw, ";")
 		}
 		if model != impl[i] {
 			e.rep.Violation("", map[string]any{"interface": en.iface, "method": en.meth, "method_lines": en.lines, "implementation": impl[i], "model": model,
